@@ -96,7 +96,7 @@ pub struct SubBatch {
 }
 
 pub trait Property: Sync {
-    type Sc: Serialize + DeserializeOwned + Clone + Send + std::fmt::Debug;
+    type Sc: Serialize + DeserializeOwned + Clone + Send + Sync + std::fmt::Debug;
     fn id(&self) -> &'static str;
     fn level(&self) -> &'static str;
     fn rule(&self) -> String;
@@ -195,6 +195,27 @@ pub struct BatchResult {
     pub exit: i32,
 }
 
+/// Execute one run on a fresh OS thread: `thread_local!` state of the code under test (caches,
+/// scratch buffers, per-thread generators) starts empty in every run and cannot leak from one run
+/// into the next through the harness's long-lived worker threads, so that a run - and its replay in
+/// another process - is a function of its scenario and decisions only.
+fn exec_fresh<P: Property>(p: &P, sc: &P::Sc, sub: &str, exec: Decider, env: &Env) -> RunOut {
+    std::thread::scope(|s| {
+        let h = std::thread::Builder::new()
+            .name("qsim-run".into())
+            .stack_size(64 << 20)
+            .spawn_scoped(s, move || {
+                crate::simcore::mark_harness_thread();
+                p.execute(sc, sub, exec, env)
+            })
+            .expect("spawn run thread");
+        match h.join() {
+            Ok(out) => out,
+            Err(e) => std::panic::resume_unwind(e),
+        }
+    })
+}
+
 fn one_run<P: Property>(p: &P, env: &Env, sub: &str, idx: usize) -> (P::Sc, RunOut) {
     let s = run_seed(env.seed, p.id(), sub, idx);
     let mut gen = Decider::seeded(mix(s, 0x6e6e));
@@ -202,7 +223,7 @@ fn one_run<P: Property>(p: &P, env: &Env, sub: &str, idx: usize) -> (P::Sc, RunO
     let sc = p.generate(&mut gen, env.tier, sub);
     let mut exec = Decider::seeded(mix(s, 0xe4ec));
     exec.record_sites = false;
-    let mut out = p.execute(&sc, sub, exec, env);
+    let mut out = exec_fresh(p, &sc, sub, exec, env);
     out.ev(gen.digest);
     (sc, out)
 }
@@ -635,7 +656,7 @@ fn reproduces<P: Property>(
 ) -> Option<(Violation, Vec<u64>)> {
     let mut exec = Decider::replay(decisions.to_vec());
     exec.record_sites = false;
-    let r = std::panic::catch_unwind(std::panic::AssertUnwindSafe(|| p.execute(sc, sub, exec, env)));
+    let r = std::panic::catch_unwind(std::panic::AssertUnwindSafe(|| exec_fresh(p, sc, sub, exec, env)));
     match r {
         Ok(out) => out
             .violations
@@ -755,7 +776,7 @@ pub fn replay_file<P: Property>(p: &P, env: &Env, path: &std::path::Path) -> i32
     };
     let mut exec = Decider::replay(rf.decisions.clone());
     exec.record_sites = false;
-    let out = p.execute(&sc, &rf.sub_batch, exec, env);
+    let out = exec_fresh(p, &sc, &rf.sub_batch, exec, env);
     println!("qsim: replay of {} ({} decisions)", path.display(), rf.decisions.len());
     println!("qsim: event digest {:016x}", out.event_digest);
     for v in &out.violations {
